@@ -90,8 +90,8 @@ prop("C07", "TestC07", "exploration",
      "(files swapped), raw in [0,1], zero for identical unambiguous sequences, and the SNP/distance columns of plain closest are checked on the same cases.",
      "tn93 asserted only where the oracle's log arguments are > 0.02; frequencies from the target's A/C/G/T counts as the statement says.",
      "bounded-exhaustive enumeration + property-based testing (rapid) against independent distance definitions",
-     "one case in 8 uses block-sized widths (64 ... 320, 4096, 4097) with masked stretches of 20..90 columns in the query and wrapped targets; non-trivial = a pair with an ambiguous column, a transition and a transversion; distinct = hash of the case",
-     q, t, required_labels=["measure:raw", "measure:snp", "measure:tn93", "tn93:P1,P2,Q>0", "identical-unambiguous"],
+     "1 case in 20 also runs the binary with --measure in lower, upper or capitalised spelling; one case in 8 uses block-sized widths (64 ... 320, 4096, 4097) with masked stretches of 20..90 columns in the query and wrapped targets; non-trivial = a pair with an ambiguous column, a transition and a transversion; distinct = hash of the case",
+     q, t, need_bin=True, required_labels=["measure:raw", "measure:snp", "measure:tn93", "tn93:P1,P2,Q>0", "identical-unambiguous"],
      exhaustive_note="17x17 symbol pairs x 2 contexts x 3 measures")
 
 q, t = tiers(8, 6000, 16, 50000, floor_q=2000, floor_t=20000)
@@ -135,7 +135,7 @@ prop("C01", "TestC01", "exploration",
      "text is compared with a column-by-column projection model (base > deletion > nothing, two letters => N, flank rule, window, wrap).",
      "Model written from the statement; records without an aligned base, spans beyond LN, non-contiguous query names and SEQ '*' on primary records are not generated (undefined by the statement).",
      "property-based testing (rapid) against an independent alignment-projection model",
-     "size classes: 1 case in 60 has a 600..9000 nt reference with operators of length 255..8193; 1 in 700 has 300..8300 records; 1 query in 25 is fragmented into 9..70 records; 1 in 2000 has a 66 000..131 100 nt reference with wraps around 65 536; 1 in 20 also runs the binary (cliAgree); non-trivial = some CIGAR has I/D/N/S/H/P, or a query has >= 2 records, or a noise record is interleaved; distinct = hash of the case",
+     "size classes: 1 case in 60 has a 600..9000 nt reference with operators of length 255..8193; 1 in 700 has 300..8300 records; 1 query in 25 is fragmented into 9..70 records; 1 in 2000 has a 66 000..131 100 nt reference with wraps around 65 536; about 20 cases per quick run have a SAM line beyond 1 MiB (1.05..1.1 Mb contig); 1 in 20 also runs the binary (cliAgree); non-trivial = some CIGAR has I/D/N/S/H/P, or a query has >= 2 records, or a noise record is interleaved; distinct = hash of the case",
      q, t, need_bin=True, required_labels=["op:I", "op:D", "op:N", "op:S", "op:H", "op:P", "op:=", "op:X", "leading-D", "trailing-D", "adjacent-I/D", "overlapping-records",
                             "disjoint-records", "conflicting-bases", "noise:unmapped", "noise:secondary", "pad", "window", "wrap", "threads>1", "pos=1", "ends-at-L"])
 
